@@ -115,7 +115,9 @@ def run(ctx):
             continue
         lhs_changed = common.reads_field(D, {"k": "use", "op": info[1]["a"]}, "state::File.changed_runid")
         rsl, _, _ = backward_direct(D, op_local(info[1]["b"])) if op_local(info[1]["b"]) is not None else (set(), 0, 0)
-        rhs_param = any(1 <= l <= D.arg_count and D.locals[l] == "i64" for l in rsl)
+        # the bound is what the caller handed in: a parameter of the routine (the run id itself, or a field of a
+        # parameter struct that carries it) - not the judged record, the transaction or the callback table
+        rhs_param = any(l is not None and 1 <= l <= D.arg_count and not re.search(r"state::File|state::ProcessTransaction|deps::DirtyCallbacks", D.locals[l]) for l in rsl)
         if lhs_changed and rhs_param:
             p = dba.path([t_t], dba.returns(), avoid=frozenset(dirty_blocks), incl=True)
             ok = p is None
@@ -123,19 +125,23 @@ def run(ctx):
            detail="changed_runid > max_changed returns Dirty" if ok else "the 'built more recently than parent' test is missing or does not return Dirty")
     for nm, fld in (("is_checked", "state::File.checked_runid"), ("is_changed", "state::File.changed_runid"), ("is_failed", "state::File.failed_runid")):
         b = prog.one(r"state::File::" + nm)
-        bba = BA.of(b)
+        # the comparison may sit in the function itself or in a closure it hands to a combinator
+        # (`self.x_runid.is_some_and(|r| r != 0 && r >= v.runid.unwrap())`): look at the function and the closures
+        # nested in it. What must exist: a `>=` (or the mirrored `<=`) whose smaller side is the current run id
+        # (a read of Env.runid), in code that also reads this predicate's own run-id field.
+        fam = [b]
+        k = 0
+        while k < len(fam):
+            fam.extend(c for c in prog.children(fam[k]) if c not in fam)
+            k += 1
         ge = False
-        for sw in sorted(bba.live):
-            bs = bba.bool_switch(sw)
-            if bs and bs[2][0] == "binop" and bs[2][1][1]["op"] == "Ge":
-                ge = True
-        # the function is straight-line `x != 0 && x >= runid`: look for the Ge binop anywhere
-        for blk in b.blocks:
-            for s in blk["stmts"]:
-                if s["s"] == "assign" and s["rv"]["k"] == "binop" and s["rv"]["op"] == "Ge":
-                    ge = True
-        reads_f = bool([1 for blk in b.blocks for s in blk["stmts"] if s["s"] == "assign" and any(fld in place_fields(p) for p in __import__("core").rvalue_places(s["rv"]))]) or \
-            any(fld in place_fields(p) for blk in b.blocks for p in [__import__("core").op_place(blk["term"].get("discr"))] if p)
-        reads_runid = bool(__import__("core").field_reads(b, re.compile(r"env::Env\.runid")))
+        for fb in fam:
+            for blk in fb.blocks:
+                for s in blk["stmts"]:
+                    if s["s"] == "assign" and s["rv"]["k"] == "binop" and s["rv"]["op"] in ("Ge", "Le"):
+                        small = s["rv"]["b"] if s["rv"]["op"] == "Ge" else s["rv"]["a"]
+                        if __import__("core").op_place(small) is not None and common.reads_field(fb, {"k": "use", "op": small}, "env::Env.runid"):
+                            ge = True
+        reads_runid = any(bool(__import__("core").field_reads(fb, re.compile(re.escape(fld)))) for fb in fam)
         ctx.ob("R7.3", "File::%s|compares-with-env.runid" % nm, ge and reads_runid, where=b.span,
                detail="%s: %s >= env.runid" % (nm, fld) if ge and reads_runid else "%s does not compare against the current run id" % nm)
